@@ -295,12 +295,13 @@ func validateMin(v interface{}, param string) error {
 	v = derefValidated(v)
 
 	if d, ok := v.(time.Duration); ok {
-		min, err := param2Duration(param)
+		min, beyond, err := param2Duration(param)
 		if err != nil {
 			return err
 		}
 
-		if min > d {
+		// a bound above every duration is never reached, one below always is
+		if beyond > 0 || (beyond == 0 && min > d) {
 			return fmt.Errorf("requires duration >= %v", param)
 		}
 		return nil
@@ -346,12 +347,12 @@ func validateMax(v interface{}, param string) error {
 	v = derefValidated(v)
 
 	if d, ok := v.(time.Duration); ok {
-		max, err := param2Duration(param)
+		max, beyond, err := param2Duration(param)
 		if err != nil {
 			return err
 		}
 
-		if max < d {
+		if beyond < 0 || (beyond == 0 && max < d) {
 			return fmt.Errorf("requires duration <= %v", param)
 		}
 		return nil
@@ -478,16 +479,28 @@ func validateNonEmptyWithAllowNil(v interface{}, _ string, allowNil bool) error 
 	return nil
 }
 
-func param2Duration(param string) (time.Duration, error) {
-	d, err := time.ParseDuration(param)
+// param2Duration reads a duration bound: a duration, or a number of seconds.
+// beyond is +1 / -1 if the number lies above / below every time.Duration.
+func param2Duration(param string) (d time.Duration, beyond int, err error) {
+	d, err = time.ParseDuration(param)
 	if err == nil {
-		return d, err
+		return d, 0, nil
 	}
 
 	tmp, floatErr := strconv.ParseFloat(param, 64)
 	if floatErr != nil {
-		return 0, err
+		return 0, 0, err
+	}
+	if tmp != tmp {
+		return 0, 0, fmt.Errorf("duration bound %v is not a number", param)
 	}
 
-	return time.Duration(tmp * float64(time.Second)), nil
+	ns := tmp * float64(time.Second)
+	switch {
+	case ns >= float64(1<<63):
+		return 0, 1, nil
+	case ns < -float64(1<<63):
+		return 0, -1, nil
+	}
+	return time.Duration(ns), 0, nil
 }
